@@ -100,9 +100,11 @@ def replay_take(scn, variants, signature):
     exp = scn["out"]
     viol = []
     calls = 0
-    for vi, kinds in enumerate(variants):
-        codec = A.LabelCodec()
-        kind = "".join(kinds)
+    # numeric variants are replayed a second time with shifted labels so that 0 and negative labels occur
+    variants = [(k, 0) for k in variants] + [(k, off) for k, off in zip(variants, (-4, -2, -6)) if "s" not in k][:1 + len(variants) // 2]
+    for vi, (kinds, off) in enumerate(variants):
+        codec = A.LabelCodec(offset=off)
+        kind = "".join(kinds) + ("" if not off else "@%d" % off)
         tol = codec.tol(i["tol"][0], kinds[0]) if i["tol"] else None
         for si, sp in enumerate(read_spellings(mode, i["idxs"], a_abs["dims"], tol)):
             form = (si + vi) % 2
